@@ -13,7 +13,8 @@ use crate::util::{Json, Rng, clip, hash_str};
 pub struct C19P;
 pub static C19: C19P = C19P;
 
-pub const REWRITES: [&str; 10] = [
+pub const REWRITES: [&str; 11] = [
+    "name-type-in-enclosing-group",
     "unused-definition-inside-group",
     "rename-binders",
     "redundant-parentheses",
@@ -326,6 +327,24 @@ pub fn apply_rewrite(h: &H, kind: &str, r: &mut Rng, root_ty: &GT, explicit: boo
             }
             None
         }
+        "name-type-in-enclosing-group" => {
+            // a type former occurring anywhere below a definition of a group (in an annotation,
+            // a definition or the body) gets a name in that same group, provided it mentions no
+            // binder introduced between the group and its own position
+            let name = fresh("tyname");
+            let ann = if explicit || r.chance(1, 2) { Some(hb(H::Type)) } else { None };
+            for _ in 0..10 {
+                let t = r.usize(n);
+                let pick = r.usize(64);
+                if let Some(x) = at_node(h, t, &mut |x, _| match x {
+                    H::Let(..) => hoist_type_into(x, &name, &ann, pick),
+                    _ => None,
+                }) {
+                    return Some(x);
+                }
+            }
+            None
+        }
         "hoist-literal-arithmetic" => {
             // a closed, division-free literal computation is named in a new enclosing group
             let name = fresh("hoisted");
@@ -349,6 +368,151 @@ pub fn apply_rewrite(h: &H, kind: &str, r: &mut Rng, root_ty: &GT, explicit: boo
         }
         _ => None,
     }
+}
+
+fn free_names(h: &H, bound: &mut Vec<String>, out: &mut Vec<String>) {
+    match h {
+        H::Var(n) => {
+            if !bound.contains(n) && !out.contains(n) {
+                out.push(n.clone());
+            }
+        }
+        H::Lam(n, _, d, b) => {
+            if let Some(d) = d {
+                free_names(d, bound, out);
+            }
+            bound.push(n.clone());
+            free_names(b, bound, out);
+            bound.pop();
+        }
+        H::Pi(n, _, d, b) => {
+            free_names(d, bound, out);
+            bound.push(n.clone());
+            free_names(b, bound, out);
+            bound.pop();
+        }
+        H::Let(..) => {
+            let mut names = vec![];
+            let mut cur = h;
+            while let H::Let(n, _, _, b) = cur.strip() {
+                names.push(n.clone());
+                cur = b;
+            }
+            let k = names.len();
+            bound.extend(names);
+            let mut cur = h;
+            while let H::Let(_, a, d, b) = cur.strip() {
+                if let Some(a) = a {
+                    free_names(a, bound, out);
+                }
+                free_names(d, bound, out);
+                cur = b;
+            }
+            free_names(cur, bound, out);
+            bound.truncate(bound.len() - k);
+        }
+        H::App(a, b) | H::Bin(_, a, b) => {
+            free_names(a, bound, out);
+            free_names(b, bound, out);
+        }
+        H::Neg(a) | H::Paren(a) => free_names(a, bound, out),
+        H::If(a, b, c) => {
+            free_names(a, bound, out);
+            free_names(b, bound, out);
+            free_names(c, bound, out);
+        }
+        _ => {}
+    }
+}
+
+// `group` is a Let node. Replace the `pick`-th eligible type former below it by `name` and put
+// `name : ann = <that type>` in front of the node (it joins the group the node belongs to).
+fn hoist_type_into(group: &H, name: &str, ann: &Option<Box<H>>, pick: usize) -> Option<H> {
+    // pass 1: count eligible sites; pass 2: replace the chosen one
+    // `is_def`: the node is the whole right-hand side of a definition; turning that into a
+    // variable would turn a value definition into a computed one (availability changes)
+    fn go(h: &H, between: &mut Vec<String>, same_group: bool, k: &mut usize, target: Option<usize>, name: &str, taken: &mut Option<H>) -> H {
+        go2(h, between, same_group, false, k, target, name, taken)
+    }
+    #[allow(clippy::too_many_arguments)]
+    fn go2(h: &H, between: &mut Vec<String>, same_group: bool, is_def: bool, k: &mut usize, target: Option<usize>, name: &str, taken: &mut Option<H>) -> H {
+        let eligible = !is_def && matches!(h, H::Pi(..)) && {
+            let mut fv = vec![];
+            free_names(h, &mut vec![], &mut fv);
+            fv.iter().all(|v| !between.contains(v)) && !fv.iter().any(|v| v == "_")
+        };
+        if eligible {
+            let me = *k;
+            *k += 1;
+            if target == Some(me) && taken.is_none() {
+                *taken = Some(h.clone());
+                return H::Var(name.to_owned());
+            }
+        }
+        match h {
+            H::Lam(n, i, d, b) => {
+                let d2 = d.as_ref().map(|d| hb(go(d, between, false, k, target, name, taken)));
+                between.push(n.clone());
+                let b2 = go(b, between, false, k, target, name, taken);
+                between.pop();
+                H::Lam(n.clone(), *i, d2, hb(b2))
+            }
+            H::Pi(n, i, d, b) => {
+                let d2 = go(d, between, false, k, target, name, taken);
+                between.push(n.clone());
+                let b2 = go(b, between, false, k, target, name, taken);
+                between.pop();
+                H::Pi(n.clone(), *i, hb(d2), hb(b2))
+            }
+            H::Let(n, a, d, b) => {
+                // a nested group binds its names for everything below; the chain we started in does not
+                let mut pushed = 0;
+                if !same_group {
+                    let mut cur = h;
+                    while let H::Let(nm, _, _, bb) = cur.strip() {
+                        between.push(nm.clone());
+                        pushed += 1;
+                        cur = bb;
+                    }
+                }
+                let a2 = a.as_ref().map(|a| hb(go(a, between, false, k, target, name, taken)));
+                let d2 = go2(d, between, false, true, k, target, name, taken);
+                // the continuation of a chain: same group as this node (names already accounted for)
+                let b2 = go(b, between, true, k, target, name, taken);
+                between.truncate(between.len() - pushed);
+                H::Let(n.clone(), a2, hb(d2), hb(b2))
+            }
+            H::App(a, b) => {
+                let a2 = go(a, between, false, k, target, name, taken);
+                let b2 = go(b, between, false, k, target, name, taken);
+                H::App(hb(a2), hb(b2))
+            }
+            H::Bin(op, a, b) => {
+                let a2 = go(a, between, false, k, target, name, taken);
+                let b2 = go(b, between, false, k, target, name, taken);
+                H::Bin(*op, hb(a2), hb(b2))
+            }
+            H::Neg(a) => H::Neg(hb(go(a, between, false, k, target, name, taken))),
+            H::Paren(a) => H::Paren(hb(go2(a, between, false, is_def, k, target, name, taken))),
+            H::If(a, b, c) => {
+                let a2 = go(a, between, false, k, target, name, taken);
+                let b2 = go(b, between, false, k, target, name, taken);
+                let c2 = go(c, between, false, k, target, name, taken);
+                H::If(hb(a2), hb(b2), hb(c2))
+            }
+            other => other.clone(),
+        }
+    }
+    let mut count = 0;
+    go(group, &mut vec![], true, &mut count, None, name, &mut None);
+    if count == 0 {
+        return None;
+    }
+    let mut taken = None;
+    let mut k = 0;
+    let rewritten = go(group, &mut vec![], true, &mut k, Some(pick % count), name, &mut taken);
+    let ty = taken?;
+    Some(H::Let(name.to_owned(), ann.clone(), hb(ty), hb(rewritten)))
 }
 
 fn is_literal_arith(h: &H) -> bool {
@@ -493,7 +657,7 @@ impl Prop for C19P {
     fn plan(&self, tier: Tier, _seed: u64) -> Plan {
         let mut p = Plan::new(
             vec![sec("explicit-programs", tier.pick(10_000, 60_000)), sec("inferred-programs", tier.pick(4_000, 25_000))],
-            "generated programs x 10 sequences of 1-5 rewrites drawn from: consistent renaming of all binders, redundant parentheses, an unused definition in front, at a site or directly after any definition of any group (a literal or a function), naming a subexpression in place, wrapping in an immediately applied annotated identity function (at the root with the program's type, at int/bool sites), wrapping in `if true then .. else ..` with an other branch that may divide by zero, swapping adjacent function definitions, hoisting closed division-free literal arithmetic into an enclosing definition; acceptance and printed value of original and rewritten program must agree (functions by head and implicit flag); non-trivial = distinct rewritten program",
+            "generated programs x 10 sequences of 1-5 rewrites drawn from: consistent renaming of all binders, redundant parentheses, an unused definition in front, at a site or directly after any definition of any group (a literal or a function), naming a subexpression in place, wrapping in an immediately applied annotated identity function (at the root with the program's type, at int/bool sites), wrapping in `if true then .. else ..` with an other branch that may divide by zero, swapping adjacent function definitions, hoisting closed division-free literal arithmetic into an enclosing definition, giving a function type that occurs below a definition a name in that definition's own group; acceptance and printed value of original and rewritten program must agree (functions by head and implicit flag); non-trivial = distinct rewritten program",
         );
         p.assumptions = vec![
             "each rewrite carries the side condition that makes it meaning-preserving in a call-by-value language with division by zero and divergence; a parenthesised group is never placed directly in the body position of a group".into(),
